@@ -400,6 +400,38 @@ for i in range(60 * N):
         "" if ok else "RFC 6605 key not turned into 04|X|Y for the crypto library")
 ecdsa_utils.ec = _real_ec
 
+# 9 --- the primitives as the signer composes them: a key that is revoked and still signs is published with the REVOKE bit and the recomputed tag,
+#       and the RRSIG it makes names that recomputed tag (RFC 4034 3.1.6: the tag of the DNSKEY RR that validates the signature)
+import ceremony
+import ksrxml
+import signcases as S
+import skrgen
+_P = ksrxml.POOL
+_NOW = dt.datetime(2026, 1, 1, tzinfo=dt.timezone.utc)
+for alg in (8, 13, 14, 10):
+    mkp = (lambda i: _P.rsa(1024, 65537, 200 + i)) if alg in (8, 10) else (lambda i: _P.ec(256 if alg == 13 else 384, 200 + i))
+    k1, k2 = ksrxml.mk_key(mkp(0), alg=alg, flags=257, ident="K0"), ksrxml.mk_key(mkp(1), alg=alg, flags=257, ident="K1")
+    zk = ksrxml.mk_key((_P.rsa(1024, 65537, 300) if alg in (8, 10) else _P.ec(256 if alg == 13 else 384, 300)), alg=alg)
+    rq = skrgen.honest_request(f"c14-revoke-{alg}", _NOW, 3, [[zk]] * 3, ksrxml.default_zsk_policy(), sign=True)
+    schema = {1: {"publish": ["k1", "k2"], "sign": ["k1"], "revoke": []}, 2: {"publish": ["k2"], "sign": ["k1", "k2"], "revoke": ["k1"]}, 3: {"publish": ["k2"], "sign": ["k2"], "revoke": ["k1"]}}
+    sc = {"modules": [[{"id": 0, "objs": S.pair(k1["id"], k1) + S.pair(k2["id"], k2)}]], "ksks": {"k1": ceremony.ksk_def(k1), "k2": ceremony.ksk_def(k2)}, "schema": schema, "request": rq}
+    r_ = S.run_sign(sc)
+    exp_ = S.expect(sc)
+    hist["signer-revoke-and-sign"] = hist.get("signer-revoke-and-sign", 0) + 1
+    probs = []
+    if r_["impl"][0] != "ok" or exp_[0] != "ok":
+        probs.append(f"signing a revoke-and-sign schema did not complete: {r_['impl'][2] if r_['impl'][0] != 'ok' else exp_}")
+    else:
+        probs += S.compare_result(sc, r_["impl"], exp_)
+        for j, b in enumerate(r_["impl"][1], 1):
+            tags = {k.key_identifier: k.key_tag for k in b.keys}
+            for s_ in b.signatures:
+                if tags.get(s_.key_identifier) != s_.key_tag:
+                    probs.append(f"bundle {j}: the RRSIG by {s_.key_identifier} names key tag {s_.key_tag}, the DNSKEY published for it has tag {tags.get(s_.key_identifier)}")
+    if probs:
+        rep.violation("impl-vs-spec", f"signer-revoke-and-sign (algorithm {alg}): " + "; ".join(probs[:3]), {"kind": "signer-revoke-and-sign", "alg": alg, "schema": str(schema)})
+_P.save()
+
 # ---- run the model on the same cases
 runner = vlib.CaseRun("C14", "main", "From KV Require Import Base.Prelude Base.Exn Base.Bytes Model.Data Model.Wire Checks.C14Check.",
                       "case", "check", shard=150)
